@@ -26,6 +26,8 @@ THEOREMS = {
     "SpecKitV.Lemmas.Detrend": ["detr_neg_one", "detr0_add_const", "detr0_sum_zero", "detr_poly_add_span", "detr_poly_kills_span",
                                 "detr_poly_orthogonal", "detr_poly_idempotent", "detr_linear", "segDFT_add_const_order0", "segDFT_add_span",
                                 "detr_poly_keeps_orthogonal"],
+    # short segments: with a complete (square) orthonormal basis the detrended segment is identically zero
+    "SpecKitV.Lemmas.DetrendComplete": ["ortho_rows_of_cols", "proj_complete", "detr_complete_basis_zero", "segDFT_complete_basis_zero"],
     "SpecKitV.Props.C01": ["stats_win_only_csd_eq_ref", "stats_win_only_auto_eq_ref", "stats_detrend0_csd_eq_ref", "stats_detrend0_auto_eq_ref",
                            "stats_poly_csd_eq_ref", "stats_poly_auto_eq_ref",
                            "stats_win_only_csd_cuda_eq_ref", "stats_win_only_auto_cuda_eq_ref", "stats_detrend0_csd_cuda_eq_ref",
@@ -37,8 +39,10 @@ CONTRACTS = ["speckit.core._build_Q(L, p) (np.linalg.qr of the centred Vandermon
              "CUDA kernels are translated from core_cuda.py source and executed only under Numba's CUDA simulator"]
 ASSUMPTIONS = ["rounding / fastmath re-association are covered by the stated forward tolerance (vk.props._an.bin_tol evaluated with the magnitudes of the "
                "record INCLUDING the trend), not by theorem",
-               "the theorems need p+1 orthonormal columns, i.e. L >= p+1; for L <= p (the real basis is then a complete L x L orthonormal matrix and "
-               "everything is annihilated) and for the NumPy fallbacks the claim rests on the oracle and on the correspondence",
+               "the theorems need p+1 orthonormal columns, i.e. L >= p+1; L = p+1 (complete basis, everything annihilated) is "
+               "`detr_complete_basis_zero`; for L <= p the real basis is an L x L orthonormal matrix (the kernels read its column count, so the "
+               "same theorem applies with p := L-1 when L >= 2; L = 1 is the oracle's), and for the NumPy fallbacks the claim rests on the oracle "
+               "and on the correspondence",
                "'a trend of degree p+1 does change it' is asserted on the bins where the reference estimator (direct windowed DFT in extended precision) "
                "changes by more than 1e4 x the rounding tolerance; that such bins exist for a generic record is measured, not proved"]
 RULE = ("cases = (mode plan|single|neg1|edge, auto|cross, detrend order, scheduler, window, backend, trend scale 1|1e3|1e6 x noise, "
